@@ -452,29 +452,36 @@ theorem async_loop_survives (m : Machine) (u : UEnv) (q : QEv) (s : St) (hs : s.
     processing sets the error flag and returns that state as it is: the flag is still set (it reaches
     the caller of `send`), the events queued behind the failing one are still queued, in order
     (`rest` is a prefix of the queue: processing can only append), and `status` is "running" unless
-    the machine completed — so later `send`s are processed. -/
-theorem drainLoop_error_keeps_queue (m : Machine) (u : UEnv) (budget : Nat) (s : St) (q : QEv) (rest : List QEv)
-    (hq : s.queue = q :: rest) (hrun : s.status = "running")
+    the machine completed — so later `send`s are processed. (`ht`: the failing event IS processed — it is not
+    a marked event that trips the runaway bound, which is discarded unprocessed; `c` is the loop's counter of
+    marked events, `fuel + 1` the model's fuel.) -/
+theorem drainLoop_error_keeps_queue (m : Machine) (u : UEnv) (fuel c : Nat) (s : St) (q : QEv) (rest : List QEv)
+    (hq : s.queue = q :: rest) (hrun : s.status = "running") (ht : syncTrips m c q = false)
     (he : (syncProcessed m u q.ev { s with queue := rest }).err ≠ none) :
-    drainLoop m u (budget + 1) s = syncProcessed m u q.ev { s with queue := rest } ∧
-    (drainLoop m u (budget + 1) s).err ≠ none ∧
-    rest <+: (drainLoop m u (budget + 1) s).queue ∧
-    StatusStep s.status (drainLoop m u (budget + 1) s).status := by
-  have h1 := drainLoop_failed m u budget s q rest hq hrun he
+    drainLoop m u (fuel + 1) c s = syncProcessed m u q.ev { s with queue := rest } ∧
+    (drainLoop m u (fuel + 1) c s).err ≠ none ∧
+    rest <+: (drainLoop m u (fuel + 1) c s).queue ∧
+    StatusStep s.status (drainLoop m u (fuel + 1) c s).status := by
+  have h1 := drainLoop_failed m u fuel c s q rest hq hrun ht he
   rw [h1]
   exact ⟨rfl, he, syncProcessed_queue m u q.ev { s with queue := rest },
     syncProcessed_status m u q.ev { s with queue := rest }⟩
 
 /-- `send()` on an idle running machine whose event fails: what `send` returns is the state the
-    failing event left, error flag set -/
-theorem sync_error_is_raised (m : Machine) (u : UEnv) (e : Ev) (s : St) (n : Nat)
-    (hmax : m.maxIterations = n + 1) (hidle : s.queue = []) (hrun : s.status = "running")
+    failing event left, error flag set (an event sent from outside is never marked, so it is processed
+    whatever the bound) -/
+theorem sync_error_is_raised (m : Machine) (u : UEnv) (e : Ev) (s : St)
+    (hidle : s.queue = []) (hrun : s.status = "running")
     (he : (syncProcessed m u e { s with queue := [] }).err ≠ none) :
     syncSend m u e s = syncProcessed m u e { s with queue := [] } ∧ (syncSend m u e s).err ≠ none := by
-  have h1 : syncSend m u e s = drainLoop m u (n + 1 + 1) { s with queue := [⟨e, false⟩] } := by
-    unfold syncSend sndUnflagged drainFlagged drainBudget
-    rw [if_pos hrun, hmax, hidle]; rfl
-  have h2 := drainLoop_failed m u (n + 1) { s with queue := [⟨e, false⟩] } ⟨e, false⟩ [] rfl hrun he
+  obtain ⟨k, hk⟩ : ∃ k, drainFuel m ({ s with queue := [⟨e, false⟩] } : St) = k + 1 :=
+    ⟨2 * m.maxIterations + 3, by unfold drainFuel extCount; simp; omega⟩
+  have h1 : syncSend m u e s = drainLoop m u (k + 1) 0 { s with queue := [⟨e, false⟩] } := by
+    unfold syncSend sndUnflagged drainFlagged
+    rw [if_pos hrun, hidle]
+    show drainLoop m u (drainFuel m ({ s with queue := [⟨e, false⟩] } : St)) 0 _ = _
+    rw [hk]; rfl
+  have h2 := drainLoop_failed m u k 0 { s with queue := [⟨e, false⟩] } ⟨e, false⟩ [] rfl hrun rfl he
   rw [h1, h2]
   exact ⟨rfl, he⟩
 
@@ -486,9 +493,9 @@ example : (syncSend exM exU (.user "BAD") sB).status = "running" := by decide
 /-- … and the next `send` is processed normally -/
 example : (cmd .sync exM exU (syncSend exM exU (.user "BAD") sB) (.user "BACK")).cfg = [[], ["a"]] := by decide
 /-- two events queued, the first fails: the drain stops with the flag set and `BACK` still queued -/
-example : ((drainLoop exM exU 5 { sB with queue := [⟨.user "BAD", false⟩, ⟨.user "BACK", false⟩] }).queue.map
+example : ((drainFlagged exM exU { sB with queue := [⟨.user "BAD", false⟩, ⟨.user "BACK", false⟩] }).queue.map
     (·.ev.type)) = ["BACK"] := by decide
-example : (drainLoop exM exU 5 { sB with queue := [⟨.user "BAD", false⟩, ⟨.user "BACK", false⟩] }).err.isSome = true := by
+example : (drainFlagged exM exU { sB with queue := [⟨.user "BAD", false⟩, ⟨.user "BACK", false⟩] }).err.isSome = true := by
   decide
 /-- async engine: the failure is counted, the flag cleared, and `BACK` (queued behind) is processed -/
 example : (asyncStep exM exU ⟨.user "BAD", false⟩ sB).errors = 1 := by decide
